@@ -348,6 +348,9 @@ def problems():
     # the non-default option force_poll_mesh=True snaps the poll set to the SEARCH grid (a no-op for an incumbent that is on it)
     P.append(dict(name="d3-force-poll-mesh", D=3, box=box(3), x0=[0.7, -0.3, 1.1], target="rosen", budget=90, opts=dict(force_poll_mesh=True)))
     P.append(dict(name="d2-force-poll-mesh-boundary", D=2, box=box(2), x0=[0.5, 0.25], target="corner", budget=70, opts=dict(force_poll_mesh=True)))
+    # a search stage that EXPANDS the mesh (search_mesh_expand > 0): the next poll works with the expanded mesh
+    P.append(dict(name="d2-search-expands-mesh", D=2, box=box(2), x0=[1.5, 1.5], target="quad", budget=90, opts=dict(search_mesh_expand=1)))
+    P.append(dict(name="d3-search-expands-mesh", D=3, box=box(3), x0=[1.0, -1.0, 0.5], target="rosen", budget=110, opts=dict(search_mesh_expand=1, search_mesh_increment=1)))
     return P
 
 
@@ -403,6 +406,7 @@ def run_bads(prob, seed):
         bads = st.get("self")
         if bads is not None:
             rec["u"] = np.asarray(bads.u, dtype=float).ravel().tolist()
+            rec["attr_mesh"] = float(bads.mesh_size)       # the optimiser's CURRENT mesh size (what the history and the result report)
             rec["state_mesh"] = float(bads.optim_state["mesh_size"])
             rec["state_search_mesh"] = float(bads.optim_state["search_mesh_size"])
             rec["iter"] = int(bads.optim_state["iter"])
@@ -490,6 +494,9 @@ def monitor_poll_step(p):
         return "regenerated", f"{p['n_generated']} direction sets generated in one poll step"
     if "u" in p and (p["m"] != p["state_mesh"] or p["sm"] != p["state_search_mesh"]):
         return "mesh-args", f"generator called with mesh {p['m']}/{p['sm']} but the state has {p['state_mesh']}/{p['state_search_mesh']}"
+    if "attr_mesh" in p and p["m"] != p["attr_mesh"]:
+        return "mesh-stale", (f"the poll step generated and scaled its directions with mesh size {p['m']} while the optimiser's current mesh size is "
+                              f"{p['attr_mesh']} (a search-stage expansion not seen by the poll?)")
     dirs, _ = int_dirs(p["B"], p["ps"])
     if "pre" not in p:
         return ("no-candidates", "directions were generated but no candidate set was built") if p["evald"] else None
